@@ -346,6 +346,10 @@ def disp_env(fn: ast.AST, zero_loops: bool = False) -> Dict[str, Tuple[int, int]
             if dotted(a.value) == 'self.disp_power':
                 power_names.update(t.id for t in a.targets if isinstance(t, ast.Name))
     assigns = sorted([a for a in ast.walk(fn) if isinstance(a, (ast.Assign, ast.AnnAssign)) and getattr(a, 'value', None) is not None], key=lambda a: a.lineno)
+    if zero_loops:
+        for l in ast.walk(fn):
+            if isinstance(l, (ast.For, ast.comprehension)) and isinstance(l.target, ast.Name):
+                env.setdefault(l.target.id, (0, 0))
     for _ in range(2):
         for a in assigns:
             tgs = a.targets if isinstance(a, ast.Assign) else [a.target]
@@ -1108,6 +1112,17 @@ def run(ctx: Any, prog: Program) -> None:
                     _loops(ch_, depth_)
         _loops(f_, 0)
 
+    # locals of the displacement readers/writers that are assigned exactly once (named temporaries)
+    single_defs: Dict[str, ast.AST] = {}
+    seen_names: Set[str] = set()
+    _cnt: Dict[str, int] = {}
+    for q_ in ('Side._parse_displacement_data', 'Side._parse_disp_vecrow', 'Side._export_displacement', 'Side._export_disp_rowset'):
+        for a_ in ast.walk(vm.func(q_)):
+            if isinstance(a_, ast.Assign) and len(a_.targets) == 1 and isinstance(a_.targets[0], ast.Name):
+                _cnt[a_.targets[0].id] = _cnt.get(a_.targets[0].id, 0) + 1
+                single_defs[a_.targets[0].id] = a_.value
+    single_defs = {k: v for k, v in single_defs.items() if _cnt[k] == 1 and k not in xy_roles}
+
     def lin2(e: ast.AST, env2: Dict[str, Tuple[int, int]]) -> Optional[Dict[str, Tuple[int, int]]]:
         """linear form in the loop variables x and y whose coefficients are linear in S"""
         if isinstance(e, ast.Name) and (e.id in ('x', 'y') or e.id in xy_roles):
@@ -1115,6 +1130,13 @@ def run(ctx: Any, prog: Program) -> None:
         c = lin(e, env2)
         if c is not None:
             return {'1': c}
+        if isinstance(e, ast.Name) and e.id in single_defs and e.id not in seen_names:
+            # a named temporary (`row_start = size * y`): its definition
+            seen_names.add(e.id)
+            try:
+                return lin2(single_defs[e.id], env2)
+            finally:
+                seen_names.discard(e.id)
         if isinstance(e, ast.BinOp) and isinstance(e.op, (ast.Add, ast.Sub)):
             l, r = lin2(e.left, env2), lin2(e.right, env2)
             if l is None or r is None:
